@@ -166,3 +166,8 @@ package dnsforward
 //@ func (s *Server) Prepare(conf *ServerConfig) (err error)
 //@   construction
 //@   modifies *
+
+// The configuration-modified callback writes the configuration file and takes this package's configuration lock again
+// (home.onConfigModified -> config.write -> WriteDiskConfig): it must be invoked with no lock held.
+//@ package-callsite fieldcall:github.com/AdguardTeam/AdGuardHome/internal/dnsforward.ServerConfig.ConfigModified() requires nolocks()
+//@ sweep C05 fieldcall:github.com/AdguardTeam/AdGuardHome/internal/dnsforward.ServerConfig.ConfigModified
